@@ -1399,7 +1399,40 @@ class Builtins:
         return self._minmax(st, args, True)
 
     def bi_max(self, st, fv, args, kw):
+        if "key" in kw and len(args) == 1:
+            return self._argmax(st, args[0], kw["key"])
         return self._minmax(st, args, False)
+
+    def _argmax(self, st, it, key):
+        """max(enumerate(seq), key=lambda x: x[1]): assumed contract of max with a key over numbers that are not
+        NaN -- the first position holding the maximum; ValueError on an empty sequence"""
+        import ast as _ast
+
+        from . import npmodel
+
+        ok = isinstance(key, VLambda) and isinstance(key.node, _ast.Lambda) and len(key.node.args.args) == 1
+        if ok:
+            b, a = key.node.body, key.node.args.args[0].arg
+            ok = isinstance(b, _ast.Subscript) and isinstance(b.value, _ast.Name) and b.value.id == a and isinstance(b.slice, _ast.Constant) and b.slice.value == 1
+        if not (ok and isinstance(it, VIter) and it.what == "enumerate"):
+            raise Unsupported("max with this key")
+        n, el = npmodel.seq_parts(self.X, st, it.parts[0])
+        out = []
+        for s, empty in self.X.branch(st, n <= 0):
+            if empty:
+                out.extend(self.X.raise_(s, "ValueError", "max() of an empty sequence"))
+                continue
+            r = s.fresh("argmax", z3.IntSort())
+            fr = self.num(el(r))
+            if fr is None:
+                raise Unsupported("max over non-numbers")
+            s.add(r >= 0, r < n)
+            s.add_index(r)
+            j = z3.Int(f"amx!{core.uid()}")
+            fj = self.num(el(j))
+            s.forall(j, z3.And(j >= 0, j < n), z3.And(z3.Implies(z3.Not(fj.nan), fj.le(fr)), z3.Implies(j < r, fj.lt(fr))), name="argmax-first-maximum")
+            out.append(Res(s, VTuple([VInt(r), el(r)])))
+        return out
 
     def bi_math_isnan(self, st, fv, args, kw):
         f = self.num(args[0])
